@@ -30,15 +30,15 @@ CLAIMS = {
          "attribution of network activity to a service object is skipped while two service generations are active", SIM),
  "C10": ("exploration", "5 C10", "First packet of every connection decodes strictly to the configured CONNECT (exactly one), nothing but AUTH is written before a successful CONNACK was delivered, a silent handshake is abandoned at exactly 5 s, an attempt whose authenticator fails (at client_initial, server_challenge or server_final, completing inline or posted) is abandoned and the next endpoint tried, the broker list is visited cyclically with further endpoints of a host first, no pause inside a pass, back-off 0.5-16.5 s (and 2^min(k,4) s +- 0.5 s for the k-th wrap) only at wrap-around.",
          "timing is judged only where no stall, no 5 s race and a single service generation make it definite", SIM + "; exact virtual-time comparisons"),
- "C12": ("exploration", "5 C12", "Every post-handshake read lives at most 1.5*K and is abandoned exactly then (never earlier; later only by injected stall); with K = 0 no read is abandoned and no PINGREQ is sent; on fault-free connections a PINGREQ is handed to the transport within K (+ 1 s slack + stall) of the CONNACK / the previous PINGREQ's write completion.",
+ "C12": ("exploration", "5 C12", "Every post-handshake read lives at most 1.5*K and is abandoned exactly then (never earlier; later only by injected stall); with K = 0 no read is abandoned and no PINGREQ is sent; on fault-free connections a PINGREQ is handed to the transport within K (+ 1 s slack + stall) of the CONNACK / the previous PINGREQ's write completion. Fault placements include broker bytes arriving within 1 ns of a pending client timer and the process being descheduled right after bytes arrived.",
          "K = Server Keep Alive of the connection's CONNACK, else the configured value", SIM + "; exact virtual-time comparisons"),
  "C13": ("exploration", "5 C13", "Per service generation: number of session_expired errors out of async_receive equals the number of successful CONNACKs with Session Present 0 that followed a successful subscribe (upper bound always, equality when the channel could be drained), and no message of the new session is delivered before the report.",
          "cancel()/async_disconnect/re-run start a new client life (the service forgets earlier subscriptions); ambiguous attributions make a generation indefinite", SIM),
- "C15": ("exploration", "5 C15", "Requests on the boundaries of the capabilities in the CONNACK held at initiation (taken from the client's CONNACK log, tied to the broker's bytes by C18, not from connack_properties()): a forbidden request completes at the same virtual instant with a documented error and nothing of it reaches the wire; an allowed request (e.g. size == limit) is never rejected with a capability error; every received packet respects the capabilities of its connection when its request was initiated under an identical capability set.",
+ "C15": ("exploration", "5 C15", "Requests on the boundaries of the capabilities in the CONNACK held at initiation (taken from the client's CONNACK log, tied to the broker's bytes by C18, not from connack_properties()): a forbidden request completes at the same virtual instant with a documented error and nothing of it reaches the wire; an allowed request (e.g. size == limit) is never rejected with a capability error; every received PUBLISH, SUBSCRIBE, UNSUBSCRIBE and async_disconnect DISCONNECT respects the capabilities (incl. Maximum Packet Size) of its connection when its request was initiated under an identical capability set.",
          "boundary sizes computed with the independent reference encoder", SIM),
  "C18": ("exploration", "5 C18", "Reference-encoded broker packets (short forms, property mixes, repeated user properties, several subscription identifiers) under arbitrary chunking: CONNACK as reported by the logger and connack_properties(), async_receive results (C04), handler arguments (C01/C14), server DISCONNECT as logged, authenticator inputs equal what was encoded; a well-formed packet is never answered with DISCONNECT 0x81/0x82. The re-encode clause is a pure codec round trip and is not decided by this technique.",
          "scope: decode + surfacing through the API; not the encode-again clause", SIM),
- "C19": ("exploration", "5 C19", "Hostile broker (22 mutation kinds incl. structure-aware property mutations + random bytes, handshake and established phase, small client receive buffers) with the whole client under ASan/UBSan: no sanitizer report, abort or uncaught exception (worker death is attributed to the announced seed and replayed), no livelock at one virtual instant, a successful completion needs a well-formed acknowledgement in the byte stream as framed by the reference decoder, a message handed to async_receive is a well-formed PUBLISH of that stream (Protocol Errors that still parse are not counted as malformed), operations outstanding after the hostile window closed complete within the healed suffix, and the same burst under three read chunkings gives the same logical trace (chunking differential, 25 % of the runs).",
+ "C19": ("exploration", "5 C19", "Hostile broker (22 mutation kinds incl. structure-aware property mutations + random bytes, handshake and established phase, small client receive buffers) with the whole client under ASan/UBSan: no sanitizer report, abort or uncaught exception (worker death is attributed to the announced seed and replayed), no livelock at one virtual instant, a successful completion needs a well-formed acknowledgement in the byte stream as framed by the reference decoder, a message handed to async_receive is a well-formed PUBLISH of that stream (Protocol Errors that still parse are not counted as malformed), operations outstanding after the hostile window closed complete within the healed suffix, and the same burst (one transport segment, PINGRESP packets between the messages) under three read chunkings gives the same logical trace (chunking differential, 25 % of the runs).",
          "malformed = cannot be parsed (incl. ill-formed UTF-8); duplicate/foreign properties and value constraints are Protocol Errors and outside the statement", SIM + "; sanitizers"),
  "C20": ("fault_enumeration", "5 C20", "Complete enumeration of 9 categories x 256 bytes through to_reason_code against tables written from MQTT 5, in a TU built with -fno-weak so the tables are ASan-guarded (out-of-table reads are reported).",
          "the sanitizer-instrumentation workaround is a complete enumeration of a finite domain, not simulation; stated as such", "complete enumeration (2304 cases) with ASan-guarded tables"),
